@@ -78,7 +78,7 @@ def well_formed(ck, name, r, cls, env):
     """the result is an object of the documented class holding proper values (no None, no foreign elements)"""
     sm = env.sm
     if cls == 'ndarray':
-        ok = hasattr(r, 'shape') and not hasattr(r, 'data') or (isinstance(r, list) and all(hasattr(x, 'shape') for x in r))
+        ok = hasattr(r, 'shape') and not isinstance(getattr(r, 'data', None), list) or (isinstance(r, list) and all(hasattr(x, 'shape') for x in r))
         ck.true(name + ':is-array', ok, 'result is %s, expected a plain array' % type(r).__name__)
         return
     if cls == 'scalar':
@@ -197,11 +197,11 @@ def equality_operators(env, cfg, ck):
     for k, (x, y, exp) in enumerate(singles):
         r = ck.attempt('eq%d' % k, lambda: x == y)
         if r is not None:
-            ck.true('eq%d:bool' % k, isinstance(r, bool) or type(r).__name__ == 'bool_', 'x == y returned %s' % type(r).__name__)
+            ck.true('eq%d:bool' % k, isinstance(r, bool) or type(r).__name__ in ('bool_', 'bool'), 'x == y returned %s' % type(r).__name__)
             ck.true('eq%d:value' % k, bool(r) == exp)
         r = ck.attempt('ne%d' % k, lambda: x != y)
         if r is not None:
-            ck.true('ne%d:bool' % k, isinstance(r, bool) or type(r).__name__ == 'bool_', 'x != y returned %s' % type(r).__name__)
+            ck.true('ne%d:bool' % k, isinstance(r, bool) or type(r).__name__ in ('bool_', 'bool'), 'x != y returned %s' % type(r).__name__)
             ck.true('ne%d:value' % k, bool(r) == (not exp))
     for k, (x, y, exp) in enumerate(multis):
         r = ck.attempt('eqM%d' % k, lambda: x == y)
